@@ -15,6 +15,7 @@ import LdkModel.Proofs.PeerMsgs
 import LdkModel.Generated.NoiseConsts
 import LdkModel.Generated.PeerSizes
 import LdkModel.Proofs.PeerWriteE2E
+import LdkModel.Proofs.EphKey
 namespace Ldk.C15
 open Ldk.Noise Ldk.Framing
 
@@ -1059,5 +1060,175 @@ example : (run toy wsched (conn0 s0 false) wops).p.out = []
 example : (broadcast (WPeer.fresh s0) m1 false 131073).2 = false ∧ (enqueue toy (WPeer.fresh s0) m1).2 = true := by decide
 
 end Outbound
+
+/-! ## Ephemeral keys: one fresh BOLT-8 ephemeral key per connection, replayed transcripts rejected
+
+   Model/EphKey.lean: PeerManager::new / get_ephemeral_key / AtomicCounter, with WHAT is hashed
+   translated from the Rust text on every run (tools/gen_peer_eph.py → Generated/PeerEph.lean).
+   The hash is a parameter `H`; its collision-freeness is an explicit hypothesis. -/
+section Ephemeral
+open Ldk.EphKey Ldk.PeerEph
+
+/-- **The facts about the source the theorems below rest on**: get_ephemeral_key finalises the
+    engine that was fed the seed AND THEN the little-endian counter, consumes exactly one counter
+    value per key, the counter starts at 0 and advances by 1, and exactly the two connection
+    constructors draw a key.  Fails to prove when the un-mixed midstate is finalised (seeded
+    C15-r5), the counter is not consumed / not advanced, or it is fed before the seed. -/
+theorem source_eph_key_derivation :
+    midstateParts = [.seed] ∧ ephPreimageParts = [.seed, .counterLE] ∧ counterNextCalls = 1
+    ∧ COUNTER_START = 0 ∧ COUNTER_STEP = 1
+    ∧ callSites = ["new_outbound_connection", "do_read_event:ActOne"] := by
+  decide
+
+/-- the hashed byte string determines the counter value (for every seed, all u64 values) -/
+theorem eph_preimage_injective (seed : Bytes) (i j : Nat) (hi : i < 2 ^ 64) (hj : j < 2 ^ 64)
+    (h : ephPreimage seed i = ephPreimage seed j) : i = j := by
+  unfold ephPreimage at h
+  rw [source_eph_key_derivation.2.1] at h
+  simp only [List.map_cons, List.map_nil, partBytes, List.flatten_cons, List.flatten_nil,
+    List.append_nil] at h
+  exact le64_inj hi hj (List.append_cancel_left h)
+example : ephPreimage [9] 258 = [9, 2, 1, 0, 0, 0, 0, 0, 0] := by decide
+
+/-- **Fresh ephemeral key per connection.**  For every seed and EVERY history of connections of
+    one PeerManager (outbound connections, inbound connections reaching act one, in any order, up
+    to 2^64 of them) any two connections use different ephemeral keys — provided the hash does not
+    collide (hypothesis on the parameter `H`, for SHA-256 the standard assumption). -/
+theorem eph_keys_fresh (H : Bytes → Bytes) (hH : ∀ a b, H a = H b → a = b) (seed : Bytes)
+    (ops : List ConnOp) (hlen : ops.length ≤ 2 ^ 64) (i j : Nat) (hij : i < j) (hj : j < ops.length) :
+    ∃ ki kj, (runConns H seed EphSt.fresh ops)[i]? = some ki
+      ∧ (runConns H seed EphSt.fresh ops)[j]? = some kj ∧ ki ≠ kj := by
+  refine ⟨_, _, runConns_getElem? H seed ops _ i (by omega), runConns_getElem? H seed ops _ j hj, ?_⟩
+  intro h
+  have hs := source_eph_key_derivation
+  have := eph_preimage_injective seed _ _ ?_ ?_ (hH _ _ h)
+  · simp only [EphSt.fresh, hs.2.2.1, hs.2.2.2.1, hs.2.2.2.2.1] at this; omega
+  · simp only [EphSt.fresh, hs.2.2.1, hs.2.2.2.1, hs.2.2.2.2.1]; omega
+  · simp only [EphSt.fresh, hs.2.2.1, hs.2.2.2.1, hs.2.2.2.2.1]; omega
+-- non-vacuity with an injective "hash"
+example : runConns id [9] EphSt.fresh [.outbound, .inboundActOne, .inboundActOne]
+    = [[9, 0, 0, 0, 0, 0, 0, 0, 0], [9, 1, 0, 0, 0, 0, 0, 0, 0], [9, 2, 0, 0, 0, 0, 0, 0, 0]] := by decide
+
+/-- an AEAD box of the handshake binds its key and its associated data (hypothesis, not axiom;
+    the handshake hash `h` is the associated data of every handshake box) -/
+def HsBoxBinds : Prop :=
+  ∀ k n ad m k' n' ad' m', c.aeadSeal k n ad m = c.aeadSeal k' n' ad' m' → k = k' ∧ ad = ad'
+
+/-- **A recorded act three is rejected by a session with different key material.**  `tempK2`, `h`
+    are the responder's temp_k2 and handshake hash of the session in which the initiator built its
+    act three (first box `seal tempK2 1 h initiatorStaticPub`); a responder whose own
+    (temp_k2, h) after act two differs — any other session — returns Err (process_act_three
+    "Bad MAC"): the peer is dropped before `their_node_id` is set, no Init is read, no message is
+    processed. -/
+theorem replayed_act_three_rejected (ha : Authentic c) (hb : HsBoxBinds c) (r : ResponderPostTwo)
+    (tempK2 h pubS rest : Bytes) (ssOf : Bytes → Bytes)
+    (hlen : (c.aeadSeal tempK2 1 h pubS).length = 49)
+    (hdiff : (r.tempK2, r.st.h) ≠ (tempK2, h)) :
+    processActThree c r ((0 : UInt8) :: c.aeadSeal tempK2 1 h pubS ++ rest) ssOf = none := by
+  unfold processActThree
+  split
+  · rfl
+  · split
+    · rfl
+    · have hc1 : (List.take 49 (List.drop 1 ((0 : UInt8) :: c.aeadSeal tempK2 1 h pubS ++ rest)))
+          = c.aeadSeal tempK2 1 h pubS := by
+        simp only [List.cons_append, List.drop_succ_cons, List.drop_zero]
+        rw [← hlen, List.take_left']
+        rfl
+      simp only [hc1]
+      cases ho : c.aeadOpen r.tempK2 1 r.st.h (c.aeadSeal tempK2 1 h pubS) with
+      | none => rfl
+      | some m =>
+        exfalso
+        have := hb _ _ _ _ _ _ _ _ (ha _ _ _ _ _ ho)
+        exact hdiff (by rw [← this.1, ← this.2])
+
+/-- **The responder's handshake hash after act two binds its ephemeral key**: two responders that
+    processed the SAME act one with ephemeral public keys `re`, `re'` (of equal length: 33 bytes in the
+    code) and wrote act twos of equal length (50 bytes in the code) end with the same hash only if
+    `re = re'` (hash collision-free — hypothesis on the parameter). -/
+theorem act_two_hash_binds_ephemeral (hinj : ∀ a b, c.hash a = c.hash b → a = b)
+    (ourStaticPub actOne re re' : Bytes) (ssOf1 ssOf2 ssOf2' : Bytes → Bytes)
+    (a2 a2' : Bytes) (r r' : ResponderPostTwo)
+    (h1 : processActOne c ourStaticPub actOne re ssOf1 ssOf2 = some (a2, r))
+    (h2 : processActOne c ourStaticPub actOne re' ssOf1 ssOf2' = some (a2', r'))
+    (hlre : re.length = re'.length) (hla : a2.length = a2'.length)
+    (hh : r.st.h = r'.st.h) : re = re' := by
+  unfold processActOne at h1 h2
+  cases hi : inboundAct c (initHS c ourStaticPub) actOne ssOf1 with
+  | none => simp [hi] at h1
+  | some x =>
+    obtain ⟨ie, st, tk⟩ := x
+    simp only [hi, outboundAct, mixKey, Option.some.injEq, Prod.mk.injEq] at h1 h2
+    obtain ⟨ha2, rfl⟩ := h1
+    obtain ⟨ha2', rfl⟩ := h2
+    simp only at hh
+    have e1 := hinj _ _ hh
+    have l1 := congrArg List.length ha2
+    have l2 := congrArg List.length ha2'
+    simp only [List.length_cons, List.length_append] at l1 l2
+    have e2 := List.append_inj_left' e1 (by omega)
+    exact List.append_cancel_left (hinj _ _ e2)
+
+/-- **Replay of a recorded initiator transcript is dropped at act three** (composition): the
+    responder of the new connection processed the recorded act one with an ephemeral key `re'`
+    different from the one (`re`) of the recorded session; then the recorded act three — and with
+    it the recorded Init and every later recorded message — is never accepted.  (`eph_keys_fresh`
+    gives `re ≠ re'` for any two connections of one PeerManager, given that distinct secret keys
+    have distinct public keys.) -/
+theorem replayed_transcript_rejected (ha : Authentic c) (hb : HsBoxBinds c)
+    (hinj : ∀ a b, c.hash a = c.hash b → a = b)
+    (ourStaticPub actOne re re' : Bytes) (ssOf1 ssOf2 ssOf2' : Bytes → Bytes)
+    (a2 a2' : Bytes) (r r' : ResponderPostTwo)
+    (h1 : processActOne c ourStaticPub actOne re ssOf1 ssOf2 = some (a2, r))
+    (h2 : processActOne c ourStaticPub actOne re' ssOf1 ssOf2' = some (a2', r'))
+    (hlre : re.length = re'.length) (hla : a2.length = a2'.length)
+    (hre : re ≠ re') (pubS rest : Bytes) (ssOf : Bytes → Bytes)
+    (hlen : (c.aeadSeal r.tempK2 1 r.st.h pubS).length = 49) :
+    processActThree c r' ((0 : UInt8) :: c.aeadSeal r.tempK2 1 r.st.h pubS ++ rest) ssOf = none := by
+  apply replayed_act_three_rejected c ha hb r' _ _ _ _ _ hlen
+  intro h
+  have : r'.st.h = r.st.h := (Prod.mk.injEq _ _ _ _ ▸ h).2
+  exact hre (act_two_hash_binds_ephemeral c hinj ourStaticPub actOne re re' ssOf1 ssOf2 ssOf2'
+    a2 a2' r r' h1 h2 hlre hla this.symm)
+
+/-! non-vacuity: a toy crypto whose hash is injective (identity) and whose boxes carry key and
+    associated data in clear (so `Authentic` and `HsBoxBinds` hold) -/
+def bindToy : Crypto where
+  aeadSeal k _ ad m := [UInt8.ofNat k.length, UInt8.ofNat ad.length] ++ k ++ ad ++ m
+  aeadOpen k _ ad box :=
+    if box.take (2 + k.length + ad.length) = [UInt8.ofNat k.length, UInt8.ofNat ad.length] ++ k ++ ad
+    then some (box.drop (2 + k.length + ad.length)) else none
+  hkdf2 a b := (0 :: a, 1 :: b)
+  hash x := x
+  ecdh _ _ := [7]
+  pubOf a := a
+  validPub _ := true
+
+private theorem bindToy_authentic : Authentic bindToy := by
+  intro k n ad box m h
+  simp only [bindToy] at h ⊢
+  split at h
+  · rename_i hc
+    cases h
+    conv => lhs; rw [← List.take_append_drop (2 + k.length + ad.length) box]
+    rw [hc]
+  · cases h
+
+-- a recorded act three (key [1], hash [2]) offered to a responder whose act two left key [1], hash [3]
+example : processActThree bindToy { st := { h := [3], ck := [] }, ie := [], tempK2 := [1] }
+    ((0 : UInt8) :: bindToy.aeadSeal [1] 1 [2] (List.replicate 45 5) ++ List.replicate 16 0) (fun _ => []) = none := by
+  decide
+-- two responders, same (genuine) act one, ephemeral public keys 08… / 09…: both accept it and end
+-- with different handshake hashes (toy AEAD of the section above with an injective hash)
+def toyId : Crypto := { toy with hash := fun x => x }
+example :
+    let a1 := (getActOne toyId [4] (List.replicate 33 6) [7]).1
+    let p := fun (re : Bytes) => processActOne toyId [4] a1 re (fun _ => [7]) (fun _ => [7])
+    (p (List.replicate 33 8)).isSome = true ∧ (p (List.replicate 33 9)).isSome = true
+      ∧ (p (List.replicate 33 8)).map (·.2.st.h) ≠ (p (List.replicate 33 9)).map (·.2.st.h) := by
+  decide
+
+end Ephemeral
 
 end Ldk.C15
